@@ -94,7 +94,7 @@ func overlayName(f string) string {
 	return filepath.Join(repoDir, "zz_verif_"+base)
 }
 
-var goLoopRe = regexp.MustCompile(`(?m)^(\s*)go ((?:a|assoc)\.(?:readLoop|writeLoop|timerLoop))\(\)$`)
+var goLoopRe = regexp.MustCompile(`(?m)^(\s*)go ((?:a|assoc)\.(?:readLoop|writeLoop|timerLoop))\(\)([ \t]*//.*)?$`)
 
 // patchedSources returns overlay replacements of repository files, regenerated from
 // the working tree on every run: the statements that start the association's
@@ -106,12 +106,12 @@ var lockTypeRes = map[string][]struct {
 	repl string
 }{
 	"association.go": {
-		{regexp.MustCompile(`(?m)^(\tlock\s+)sync\.RWMutex$`), "${1}vLkAssoc"},
-		{regexp.MustCompile(`(?m)^(\ttimerMu\s+)sync\.Mutex$`), "${1}vLkTimer"},
+		{regexp.MustCompile(`(?m)^(\tlock\s+)sync\.RWMutex([ \t]*//.*)?$`), "${1}vLkAssoc${2}"},
+		{regexp.MustCompile(`(?m)^(\ttimerMu\s+)sync\.Mutex([ \t]*//.*)?$`), "${1}vLkTimer${2}"},
 	},
 	"stream.go": {
-		{regexp.MustCompile(`(?m)^(\tlock\s+)sync\.RWMutex$`), "${1}vLkStream"},
-		{regexp.MustCompile(`(?m)^(\twriteLock\s+)sync\.Mutex$`), "${1}vLkWrite"},
+		{regexp.MustCompile(`(?m)^(\tlock\s+)sync\.RWMutex([ \t]*//.*)?$`), "${1}vLkStream${2}"},
+		{regexp.MustCompile(`(?m)^(\twriteLock\s+)sync\.Mutex([ \t]*//.*)?$`), "${1}vLkWrite${2}"},
 		// the read-deadline goroutine is queued instead of started: harnesses run it at the
 		// point of the scenario where the deadline passes (vRunSpawned)
 		{regexp.MustCompile(`(?m)^(\s*)go func\(readTimeoutCancel chan struct\{\}\) \{$`), "${1}vSpawnCh(func(readTimeoutCancel chan struct{}) {"},
@@ -129,7 +129,7 @@ func patchedSources() map[string][]byte {
 		}
 		nb := b
 		if f == "association.go" {
-			nb = goLoopRe.ReplaceAll(nb, []byte("${1}vGo(${2})"))
+			nb = goLoopRe.ReplaceAll(nb, []byte("${1}vGo(${2})${3}"))
 		}
 		for _, r := range lockTypeRes[f] {
 			nb = r.re.ReplaceAll(nb, []byte(r.repl))
